@@ -125,6 +125,15 @@ def check_closure(ctx):
             # explicit raises
             if isinstance(n, ast.Raise) and n.exc is not None:
                 classes = raised_classes(n.exc, fn)
+                if '?' in classes and isinstance(n.exc, ast.Call) and isinstance(n.exc.func, ast.Name):
+                    # a helper imported from another module of the parse path that builds the exception
+                    helper = [h for _f, hn, h in fns if hn == n.exc.func.id]
+                    if len(helper) == 1:
+                        got = set()
+                        for r in walk_no_nested(helper[0]):
+                            if isinstance(r, ast.Return):
+                                got |= raised_classes(r.value, helper[0]) if r.value is not None else {'?'}
+                        classes = got or {'?'}
                 cls = '/'.join(sorted(classes))
                 nsites += 1
                 ok = classes <= {'ParsingException', 'LexError', '<reraise>'}
@@ -365,7 +374,7 @@ def check_result_untouched(ctx):
                    'recursive and not total on every tree the grammar builds, so a RecursionError / TypeError of a printer leaves parse_sql instead of the tree',
                    file=INIT, line=bad[0][0] if bad else fn.lineno, witness='select * from t where ' + ' or '.join(f'a = {i}' for i in range(3)) + ' or ... (500 terms)')
     ctx.setcount('parse_results', n_res)
-    ctx.floor('parse_results', 2)
+    ctx.floor('parse_results', 1)
 
 
 def run(ctx):
